@@ -110,6 +110,7 @@ int main() {
         };
         auto spc = [&]() -> int64_t {
             if (starter->reason == vs::R_POINT) return starter->tag == TAG_IDLE ? 0 : starter->tag == TAG_AFTER_START ? 2 : 4;
+            if (starter->reason == vs::R_AFTER_SPAWN) return 1;   // inside start(): the thread exists, start() has not returned
             if (starter->reason == vs::R_JOIN) return 3;
             return starter->reason == vs::R_FINISHED ? 4 : 9;
         };
